@@ -304,9 +304,17 @@ func u16s(l []uint16) []byte {
 	return o
 }
 
+// wireClip returns a copy whose capacity equals its length (a slice expression beyond len must panic,
+// not silently read spare capacity).
+func wireClip(data []byte) []byte {
+	c := make([]byte, len(data))
+	copy(c, data)
+	return c[:len(c):len(c)]
+}
+
 func (w *WireOps) PgBind(label string, data []byte) vh.Outcome {
 	return w.add(label, "(PgBind "+vh.H(data)+")", vh.Guard(func() vh.Outcome {
-		b, err := postgresql.NewBindPacket(data)
+		b, err := postgresql.NewBindPacket(wireClip(data))
 		if err != nil {
 			return vh.ErrO(err)
 		}
@@ -343,6 +351,60 @@ func (w *WireOps) PgBindRewrite(label string, stream []byte, tr [][]byte) vh.Out
 			return vh.ErrO(err)
 		}
 		return vh.Ok(out.Bytes())
+	}))
+}
+
+// PgParse: NewParsePacket and every accessor of the result.
+func (w *WireOps) PgParse(label string, data []byte) vh.Outcome {
+	return w.add(label, "(PgParse "+vh.H(data)+")", vh.Guard(func() vh.Outcome {
+		p, err := postgresql.NewParsePacket(wireClip(data))
+		if err != nil {
+			return vh.ErrO(err)
+		}
+		name, query, num, params := p.VerifFields()
+		return vh.Ok(name, query, num, cat(params...), p.Marshal(), []byte(p.Name()), []byte(p.QueryString()))
+	}))
+}
+
+// PgParseReplace: read a client message, ReplaceQuery on a Parse message (the Parse branch), send.
+func (w *WireOps) PgParseReplace(label string, stream, q []byte) vh.Outcome {
+	return w.add(label, "(PgParseReplace "+vh.H(stream)+" "+vh.H(q)+")", vh.Guard(func() vh.Outcome {
+		h, out := newHandler(true, stream)
+		if err := readOne(h, true); err != nil {
+			return vh.ErrO(err)
+		}
+		if h.IsParse() {
+			h.ReplaceQuery(string(q))
+		}
+		if err := h.VerifSendPacket(); err != nil {
+			return vh.ErrO(err)
+		}
+		return vh.Ok(out.Bytes())
+	}))
+}
+
+func (w *WireOps) PgExecute(label string, data []byte) vh.Outcome {
+	return w.add(label, "(PgExecute "+vh.H(data)+")", vh.Guard(func() vh.Outcome {
+		e, err := postgresql.NewExecutePacket(wireClip(data))
+		if err != nil {
+			return vh.ErrO(err)
+		}
+		return vh.Ok([]byte(e.PortalName()), be4(e.VerifS14MaxRows()))
+	}))
+}
+
+// PgSimpleQuery: read a client message and take its query text the way handleClientPacket does.
+func (w *WireOps) PgSimpleQuery(label string, stream []byte) vh.Outcome {
+	return w.add(label, "(PgSimpleQuery "+vh.H(stream)+")", vh.Guard(func() vh.Outcome {
+		h, _ := newHandler(true, stream)
+		if err := readOne(h, true); err != nil {
+			return vh.ErrO(err)
+		}
+		q, err := h.GetSimpleQuery()
+		if err != nil {
+			return vh.ErrO(err)
+		}
+		return vh.Ok([]byte(q))
 	}))
 }
 
